@@ -431,6 +431,16 @@ Fixpoint executed (steps : list step_in) : nat :=
   | s :: r => match shoot_step s with StepOk _ => S (executed r) | _ => 1%nat end
   end.
 
+(* grpc gun (components/guns/grpc/core.go shoot): unknown method -> code 0, payload that does not fit the message ->
+   400, otherwise the mapped status of the call (503 for a refusing / vanished target); always exactly one sample,
+   reported by the deferred function; the gun never sets an error on the sample *)
+Inductive grpc_result := GrpcNoMethod | GrpcBadPayload | GrpcStatus (code : Z).
+Definition grpc_shoot (r : grpc_result) : shot :=
+  Returned [{| sm_code := match r with GrpcNoMethod => 0 | GrpcBadPayload => 400 | GrpcStatus c => c end; sm_err := false |}].
+(* Gun.Bind: needs the warm-up result; the per-instance connection is dialled WITHOUT blocking, so Bind does not depend
+   on whether the target accepts connections at that moment *)
+Definition grpc_bind (warmup_ok : bool) (target_accepting : bool) : bool := warmup_ok.
+
 (* instance.Run: shots in order; a panic inside Shoot is recovered and ends the instance with an error *)
 Fixpoint instance_run (shots : list shot) : list sample * bool :=
   match shots with
